@@ -15,19 +15,19 @@ exec(open('/verif/manifest_table.py').read())
 EXTRA = {
  "C01": "In addition the valued accrual pipeline scenarios run free under the Go race detector (the explorer treats a processor callback as atomic), the Delta row of a two-year daily accrual is observed on the free-running binary, and the position life histories of C03 (totals that pass through exactly zero).",
  "C02": "In addition: the same cells around the end of a leap year and for journals that begin on 0001-01-01, mapping rules with an alternation, and a three-file layout of a fixed journal under every loader schedule within the deviation bound (single-file result as the oracle).",
- "C03": "In addition every life history of <= 4 (quick) / 6 (thorough) steps of two foreign positions (buy, sell out completely, new price, unrelated booking, transfer) on consecutive days, mapping configurations, and a three-file layout (the same pair quoted on one day in two files) under every loader schedule within the deviation bound.",
- "C04": "In addition an accepted and a rejected journal spread over three files under every loader schedule within the deviation bound; the alphabets contain dates in 1600, 2300 and 9999, fractional and zero-share accruals, and bookings that name the account on the credit side.",
- "C05": "In addition one wide two-level layout (81 files) per journal, hand-picked journals of 5-6 directives in all their orders, and a many-file class on the free-running binary.",
+ "C03": "In addition every life history of <= 4 (quick) / 6 (thorough) steps of two foreign positions (buy, sell out completely, new price, unrelated booking, transfer) on consecutive days, mapping configurations, a three-file layout (the same pair quoted on one day in two files) under every loader schedule within the deviation bound, and suffix mapping rules on asset accounts against the unmapped income rows.",
+ "C04": "In addition an accepted and a rejected journal spread over three files under every loader schedule within the deviation bound; the alphabets contain dates in 1600, 2300 and 9999, fractional and zero-share accruals, and bookings that name the account on the credit side; `check --write` gives the same verdicts.",
+ "C05": "In addition one wide two-level layout (81 files) per journal, hand-picked journals of 5-6 directives in all their orders (one with a deep account and its booked ancestor under `-m 1:1`), and a many-file class on the free-running binary.",
  "C06": "Inputs include sibling accounts / commodities whose totals are equal but made of decimals that are inexact in binary, arriving in different orders; weights at 15-16 digits; a diamond of includes; and, on the real binary only (GOMAXPROCS all/1/2/4, repeated), a 40-account training tie and a 40000-transaction include.",
  "C07": "In addition tokens with NUL / invalid UTF-8, long files, include trees through the loader, and the rendered line:column of every error compared with the range.",
  "C09": "In addition inverse quotes on the same day, suffix mapping rules, same-day twins whose amounts have coefficients around 2^63 and 2^64; the pipeline scenarios of that report run free under the race detector.",
  "C10": "In addition century-long windows and, at command level, accruals whose instalments lie around every 512th directive (1300 filler transactions; a daily accrual over two years).",
  "C11": "In addition year-end and century windows and a command-level part (15 daily bookings of 2^i, a sparse variant, a journal ending with non-transaction directives, time zones east and west of UTC).",
- "C12": "In addition `balance -v` on prices in the root file and positions in two included files under every loader schedule within the deviation bound; boundary prices (redeclared pairs, reciprocals that truncate, quotes with nine decimals and below 1e-8).",
+ "C12": "In addition `balance -v` on prices in the root file and positions in two included files under every loader schedule within the deviation bound; boundary prices (redeclared pairs, reciprocals that truncate, quotes with nine decimals and below 1e-8); a 9000-day price history in one file on the free-running binary.",
  "C13": "In addition statements split over several files and descriptions containing `#`, 200-character texts of two-byte characters at both byte parities.",
  "C14": "In addition wide include trees (21/81/141 files, valid or with an error in the last leaf), an 'extreme' class of numeric flag values (INT32 / INT64 limits, 1e8), deep accounts, include doubling and device files run on the real binary under a 4 GiB address-space limit and a 20 s deadline, and a 'stress' class (200-day growing journal, 8 x 300 accruals) under a 60 s deadline.",
  "C15": "In addition a crossed-ties case (mathematically equal scores attached to different words) explored under all 7! iteration orders of the token set, a training file included from two files under every loader schedule within the bound, --inplace on a widened target, and a 700-transaction target under the race detector.",
- "C16": "In addition the position life histories of C03, a 36000-booking file on the real binary, and a diamond of includes under every loader schedule within the bound.",
+ "C16": "In addition the position life histories of C03, an accrual in a foreign commodity, a 36000-booking file on the real binary, and a diamond of includes under every loader schedule within the bound.",
  "C17": "In addition coefficients of 63-65 bits, CSV output under every display flag, 700-row tables (widths; race detector), commodity names in non-Latin scripts.",
  "C18": "In addition six files of which the first is broken, and unreadable paths (symlink loops, a path below a regular file) in front of good files under GOMAXPROCS 1, 2, 3 and 16.",
  "C19": "Scenarios include diamonds and cycles of includes (between ancestors and between siblings), accruals in two files, and filtered returns (race detector only).",
